@@ -105,6 +105,33 @@ def selftest_trace(ctx, module, cfgname, cfg, trace, name):
 
 
 # ----------------------------------------------------------------------------
+def rand_cp_module(ctx, salt=0):
+    """Seed-drawn VALUES for ControlPoints.tla (times stay {-1, 0, 1, 2}): per kind the default-equal value, a random one
+    and a special one (a non-finite velocity / scroll speed = negative abstract value, bank None, a volume beyond 100)."""
+    import random
+    rnd = random.Random(ctx.seed * 9176 + 3 + salt * 15485867)
+    text = ("------------------------------- MODULE RandCP -------------------------------\n"
+            "(* generated by bin/plans.py (rand_cp_module) from VERIF_SEED = %d - do not edit. *)\n"
+            "EXTENDS ControlPoints\n\n"
+            "RandPointsOf(k) ==\n"
+            "    CASE k = \"tim\" -> {[t |-> t, bl |-> v[1], omit |-> v[2], sig |-> v[3]] : t \\in Times, v \\in {<<500, FALSE, 4>>, <<%d, %s, %d>>}}\n"
+            "      [] k = \"dif\" -> {[t |-> t, sv |-> v[1], ticks |-> v[2]] : t \\in Times, v \\in {<<1000, TRUE>>, <<%d, %s>>, <<%d, TRUE>>}}\n"
+            "      [] k = \"eff\" -> {[t |-> t, kiai |-> v[1], scroll |-> v[2]] : t \\in Times, v \\in {<<FALSE, 1000>>, <<%s, %d>>, <<FALSE, %d>>}}\n"
+            "      [] k = \"smp\" -> {[t |-> t, bank |-> v[1], vol |-> v[2], custom |-> v[3]] : t \\in Times, v \\in {<<1, 100, 0>>, <<%d, %d, %d>>, <<%d, %d, 0>>}}\n"
+            "=============================================================================\n") % (
+                ctx.seed, rnd.choice([250, 6, 60000, rnd.randint(1, 99999)]), rnd.choice(["FALSE", "TRUE"]), rnd.choice([4, 3, 7]),
+                rnd.choice([2000, 500, 50, 20000, rnd.randint(1, 30000)]), rnd.choice(["TRUE", "FALSE"]), rnd.choice([-1, -2]),
+                rnd.choice(["TRUE", "FALSE"]), rnd.choice([250, 5, 20000, 1000, rnd.randint(1, 30000)]), rnd.choice([-1, -2]),
+                rnd.choice([1, 2, 3]), rnd.choice([50, 0, 100, rnd.randint(0, 100)]), rnd.choice([2, 1, 0, rnd.randint(1, 500)]),
+                rnd.choice([0, 1]), rnd.choice([150, -20, 100, rnd.randint(-100, 300)]))
+    path = os.path.join(SPEC, "RandCP.tla")
+    old = open(path).read() if os.path.exists(path) else None
+    if old != text:
+        with open(path, "w") as fh:
+            fh.write(text)
+    sany(ctx, "RandCP")
+
+
 def check_C13(ctx):
     thorough = ctx.tier == "thorough"
     for m in ("ControlPointOps", "ControlPoints", "Trace_ControlPoints"):
@@ -122,6 +149,13 @@ def check_C13(ctx):
     cfg = dict(base, constants=dict(Times=times, KindSet=ALLKINDS, MaxOps=str(depth), Emit="TRUE"))
     r = tlc(ctx, "ControlPoints", "MC_ControlPoints_all%d" % depth, cfg, workers=1)
     cases += r["lines"]
+    # (2b) the same graphs over seed-drawn VALUES (incl. non-finite velocities, bank None, volumes beyond 100)
+    for salt in ([2, 1, 0] if thorough else [0]):
+        rand_cp_module(ctx, salt)
+        for k in ("tim", "dif", "eff", "smp"):
+            cfg = dict(base, constants=dict(Times=times, KindSet='{"%s"}' % k, MaxOps="0", Emit="TRUE", PointsOf="<-RandPointsOf"))
+            r = tlc(ctx, "RandCP", "MC_RandCP_%s" % k, cfg, workers=1, coverage=False)
+            cases += r["lines"]
     # (3) negative control: "no adjacent repeat" as a state invariant must be violated
     cfg = dict(spec="Spec", invariants=["NegNoAdjacentRepeat"],
                constants=dict(Times=times, KindSet='{"dif"}', MaxOps="0", Emit="FALSE"))
